@@ -4,11 +4,11 @@ EXTENDS Limits, Json, Sequences
 
 StateRec == [lim |-> lim, st |-> st, out |-> out, sem |-> sem, sub |-> sub, loopOn |-> loopOn, gone |-> gone,
              tgLive |-> tgLive, stop |-> stop, lclosed |-> lclosed, peersClosed |-> peersClosed, dead |-> dead,
-             runLive |-> runLive, conn |-> conn, th |-> th, stop2 |-> stop2]
+             runLive |-> runLive, conn |-> conn, th |-> th, stop2 |-> stop2, par |-> par]
 
 \* Leg R: the harness decides the environment steps and lets the real code run until it is settled, so
 \* environment steps are exported only from states in which no internal step is enabled ("eager" graph).
-EnvOps == {"Arrive", "Disconnect", "CloseListener", "StopBegin", "Stop2Begin", "ThAdd", "ThRefuse", "ThCheck", "AllowCheck", "Refuse", "Handshake"}
+EnvOps == {"Arrive", "Disconnect", "CloseListener", "StopBegin", "Stop2Begin", "CancelParent", "ThAdd", "ThRefuse", "ThCheck", "AllowCheck", "Refuse", "Handshake"}
 IsEnvStep == \/ act'.op \in EnvOps
              \/ (act'.op = "Abort" /\ stop = "no")
              \/ (act'.op = "RemovePeer" /\ ~dead[act'.p])
@@ -40,7 +40,7 @@ Emit ==
     PrintT("EDGE " \o ToJson([init |-> (act.op = "Init"), from |-> StateRec, act |-> act',
         to |-> [lim |-> lim', st |-> st', out |-> out', sem |-> sem', sub |-> sub', loopOn |-> loopOn', gone |-> gone',
                 tgLive |-> tgLive', stop |-> stop', lclosed |-> lclosed', peersClosed |-> peersClosed', dead |-> dead',
-                runLive |-> runLive', conn |-> conn', th |-> th', stop2 |-> stop2']]))
+                runLive |-> runLive', conn |-> conn', th |-> th', stop2 |-> stop2', par |-> par']]))
 
 EagerEmit == Eager /\ Emit
 =============================================================================
